@@ -176,6 +176,18 @@ def search_approx(seed, tier):
                 Standardising(FCNN(3, 1, hidden_units=hidden), sh), None, T.SecondOrderInitialCondition(u0_2, v0_2), []),
              (xx, yy, t0), u0_2(xx, yy), v0_2(xx, yy)),
         ]
+        # the initial condition is an attribute of the approximator / a field of the condition object: what is prescribed NOW is what counts
+        u0_new = lambda x: torch.cos(b * x) - a
+        u0_new2 = lambda x, y: torch.cos(b * x) * y - a
+        ic1, ic2 = T.FirstOrderInitialCondition(u0_1), T.FirstOrderInitialCondition(u0_2)
+        ap1 = T.SingleNetworkApproximator1DSpatialTemporal(FCNN(2, 1, hidden_units=hidden), None, ic1, [])
+        ap2 = T.SingleNetworkApproximator2DSpatialTemporal(FCNN(3, 1, hidden_units=hidden), None, ic2, [])
+        ap1(xx, t0), ap2(xx, yy, t0)
+        ic1.u0 = u0_new
+        ap2.u0 = u0_new2
+        ic2.u0 = u0_new2
+        cases += [('approx1d/u0 of the condition object replaced after construction', ap1, (xx, t0), u0_new(xx), None),
+                  ('approx2d/u0 replaced after construction', ap2, (xx, yy, t0), u0_new2(xx, yy), None)]
         for name, ap, args, want, wantdot in cases:
             n_eval += 1
             try:
@@ -406,6 +418,38 @@ def sampler_property(cfg, draws, outs):
     return None
 
 
+def tensor_bound_checks():
+    """samplers whose bounds are given as 0-d tensors (data.min(), data.max()): the caller's tensors are left alone, and every sampler built
+    from the same bound objects stratifies the interval the bounds describe"""
+    import torch
+    from neurodiffeq import temporal as T
+    bad = []
+    lo, hi = torch.tensor(0.25, dtype=torch.float64), torch.tensor(2.0, dtype=torch.float64)
+
+    def strata_ok(v, a, b, n):
+        w = (b - a) / n
+        return all(a + i * w - 1e-9 <= float(x) <= a + (i + 1) * w + 1e-9 for i, x in enumerate(v))
+    try:
+        made = [('generator_1dspatial(random=False)', T.generator_1dspatial(4, lo, hi, random=False)), ('generator_temporal(random=True)', T.generator_temporal(4, lo, hi, random=True)),
+                ('generator_1dspatial(random=True)', T.generator_1dspatial(4, lo, hi, random=True)), ('generator_temporal(random=False)', T.generator_temporal(4, lo, hi, random=False))]
+        for rnd in range(3):
+            for nm, g in made:
+                v = next(g).reshape(-1).tolist()
+                if float(lo) != 0.25 or float(hi) != 2.0 or not strata_ok(v, 0.25, 2.0, 4):
+                    bad.append(dict(kind='sampler', case='bounds given as 0-d tensors, several samplers built from the same bound objects', sampler=nm, draw=rnd + 1,
+                                    points=v, bounds_now=[float(lo), float(hi)], violated='a point lies outside its stratum of [0.25, 2.0] / the caller\'s bounds were modified'))
+                    return bad
+        gx = T.generator_2dspatial_rectangle((3, 3), lo, hi, lo, hi, random=False)
+        xs, ys = next(gx)
+        ux, uy = sorted(set(round(float(v), 9) for v in xs)), sorted(set(round(float(v), 9) for v in ys))
+        if float(lo) != 0.25 or float(hi) != 2.0 or not strata_ok(ux, 0.25, 2.0, 3) or not strata_ok(uy, 0.25, 2.0, 3):
+            bad.append(dict(kind='sampler', case='square rectangle with the same 0-d tensor bounds on both axes', x_nodes=ux, y_nodes=uy, bounds_now=[float(lo), float(hi)],
+                            violated='nodes outside their strata / bounds modified'))
+    except Exception as e:
+        bad.append(dict(kind='sampler', case='bounds given as 0-d tensors', error=f'{type(e).__name__}: {e}'))
+    return bad
+
+
 def sampler_configs(tier, seed):
     rng = random.Random(seed * 7919 + 20)
     quick = tier == 'quick'
@@ -610,21 +654,29 @@ def real_history(s):
         for grp in opt.param_groups:
             grp['lr'] = 1e30
     rnd = s['random']
+
+    class Mon:            # a monitor that is refreshed every few epochs (the documented interface: check_every, check(approximator, history))
+        check_every = s.get('monitor_every') or 1
+        checks = 0
+
+        def check(self, *a, **k):
+            Mon.checks += 1
+    mon = Mon() if s.get('monitor_every') else None
     if s['solver'] == '1d_temporal':
         mk = lambda f: {m: (lambda u, x, t, k=k: (u ** 2).mean() + k) for k, m in enumerate(s['metrics'])}
         _, h = T._solve_1dspatial_temporal(T.generator_1dspatial(s['nx'], 0., 1., rnd), T.generator_temporal(s['nt'], 0., 1., rnd),
                                            T.generator_1dspatial(3, 0., 1., False), T.generator_temporal(2, 0., 1., False),
-                                           ap, opt, s['bs'], s['epochs'], s['shuffle'], mk(0), None)
+                                           ap, opt, s['bs'], s['epochs'], s['shuffle'], mk(0), mon)
     elif s['solver'] == '2d':
         mk = lambda f: {m: (lambda u, x, y, k=k: (u ** 2).mean() + k) for k, m in enumerate(s['metrics'])}
         _, h = T._solve_2dspatial(T.generator_2dspatial_rectangle((s['nx'], s['nt']), 0., 1., 0., 1., rnd),
                                   T.generator_2dspatial_rectangle((2, 3), 0., 1., 0., 1., False),
-                                  ap, opt, s['bs'], s['epochs'], s['shuffle'], mk(0), None)
+                                  ap, opt, s['bs'], s['epochs'], s['shuffle'], mk(0), mon)
     else:
         mk = lambda f: {m: (lambda u, x, y, t, k=k: (u ** 2).mean() + k) for k, m in enumerate(s['metrics'])}
         _, h = T._solve_2dspatial_temporal(T.generator_2dspatial_rectangle((s['nx'], 2), 0., 1., 0., 1., rnd), T.generator_temporal(s['nt'], 0., 1., rnd),
                                            T.generator_2dspatial_rectangle((2, 2), 0., 1., 0., 1., False), T.generator_temporal(2, 0., 1., False),
-                                           ap, opt, s['bs'], s['epochs'], s['shuffle'], mk(0), None)
+                                           ap, opt, s['bs'], s['epochs'], s['shuffle'], mk(0), mon)
     bad_vals = [k for k, v in h.items() if any(not isinstance(x, float) for x in v)]
     return [(k, len(v)) for k, v in h.items()], bad_vals
 
@@ -651,6 +703,8 @@ def history_scripts(tier, seed):
     for solver in ('1d_temporal', '2d', '2d_temporal'):
         out.append(dict(solver=solver, epochs=4, metrics=rng.sample(pool, 1), nx=3, nt=2, bs=rng.randint(2, 6), shuffle=True, random=True,
                         torch_seed=rng.randrange(1 << 30), diverge=True))
+        out.append(dict(solver=solver, epochs=7, metrics=rng.sample(pool, 1), nx=3, nt=2, bs=rng.randint(2, 6), shuffle=True, random=True,
+                        torch_seed=rng.randrange(1 << 30), monitor_every=rng.choice([2, 3, 5])))
     # outside the property quantifier, model-vs-code only: a metric called 'loss' shares the loss series' key
     out.append(dict(solver='1d_temporal', epochs=3, metrics=['loss', 'mse'], nx=3, nt=2, bs=4, shuffle=True, random=True,
                     torch_seed=rng.randrange(1 << 30), outside_quantifier=True))
@@ -725,6 +779,7 @@ def check(tier, seed):
     except Exception as e:
         found, n_approx = [dict(kind='approximator', error=f'search crashed: {type(e).__name__}: {e}')], 0
     failing += found
+    failing += tensor_bound_checks()
 
     # ---- real runs ---------------------------------------------------------------------------------------------------
     t0 = time.time()
